@@ -27,6 +27,12 @@ def gen_one(rng):
     sort_on = False
     for i in range(n):
         if halt_at == i:
+            if rng.random() < 0.4:
+                # a guard in front of `halt` does not belong to it (guards wait for the next statement / query / system record):
+                # the run ends here whatever the labels are (labels of the run: beta, gamma)
+                g = rng.choice(["onlyif nosuchlabel\n", "skipif beta\n", "onlyif alpha\nskipif gamma\n"])
+                text += g; line += g.count("\n")
+                feats.add("guarded-halt")
             text += "halt\n\n"; line += 2
             if not stopped:
                 stopped = True
@@ -71,8 +77,9 @@ def gen_one(rng):
             here = line
             sql = "select %d" % i
             rows = [[str(i), "x"], ["0", "y"]]
-            want = sorted(rows) if sort_on else rows
-            text += "query IT%s\n%s\n----\n%s\n\n" % (clause, sql, "\n".join(" ".join(r) for r in want)); line += 5 + len(want) - 1
+            qs = rng.choice(["", "", " nosort", " rowsort"])       # the record's own sort mode wins over the file-level one, `nosort` included
+            want = sorted(rows) if (qs == " rowsort" or (qs == "" and sort_on)) else rows
+            text += "query IT%s%s\n%s\n----\n%s\n\n" % (qs, clause, sql, "\n".join(" ".join(r) for r in want)); line += 5 + len(want) - 1
             if not stopped:
                 if fails:
                     for _ in range(retry or 1):
